@@ -194,7 +194,10 @@ fn main() {
     };
 
     // N=1: the full slot alphabet
-    run_set("N1-full", 1, full.iter().map(|ix| vec![slot_of(ix)]).collect(), true);
+    // (the full product has ~3.3 M slots: every 16th in quick, all in thorough; N=1 exercises no
+    // cross-slot logic, the single-field variations of `mid` are always included)
+    let n1: Vec<Vec<Slot>> = full.iter().step_by(if thorough { 1 } else { 16 }).chain(mid.iter()).map(|ix| vec![slot_of(ix)]).collect();
+    run_set("N1-full", 1, n1, true);
     // N=2: mid x mid (closed under permutation and under dummy-content replacement)
     let mut v2 = Vec::new();
     for a in &mid {
@@ -308,7 +311,7 @@ fn main() {
         rep.extra("vector_sets", json!(set_sizes));
         rep.extra("accepted_vectors", json!(accepted));
         rep.extra("sampled_runs_N8_N16 (NOT part of the exhaustive counts)", json!(sampled));
-        rep.extra("slot_alphabet", json!({"block hash": "{0, B1, B2, B1 with limb 3 bumped}", "asset": "{0,1}", "fee": "{0,7}", "nullifier": "{n1,n2,n1 with limb 2 bumped}", "exit accounts": "{zero, X, Y, X with limb 1 bumped} per output", "amounts": "{0,1,5,2^31,2^32-1} per output", "preimage": "{u1,u2}", "dummy block number": "{0,77}", "sizes": {"full": full.len(), "mid (bases+single-field variations+pairwise cover)": mid.len(), "small": small.len()}}));
+        rep.extra("slot_alphabet", json!({"block hash": "{0, B1, B2, B1 with each single limb bumped, B1 with limb0+1/limb1-1}", "asset": "{0,1}", "fee": "{0,7}", "nullifier": "{n1,n2,n3, n1 with each single limb bumped, n1 with limb0+1/limb1-1}", "exit accounts": "{zero, X, Y, X with each single limb bumped, X with limb0+1/limb1-1 (same limb sum)} per output", "amounts": "{0,1,5,2^31,2^32-1} per output", "preimage": "{u1,u2}", "dummy block number": "{0,77}", "sizes": {"full": full.len(), "mid (bases+single-field variations+pairwise cover)": mid.len(), "small": small.len()}}));
         rep.rule("case = vector of N leaf statements (+ per-slot preimages) assigned to the free child public inputs of the circuit built by the real build_private_batch_constraints; every vector of the listed sets is run through all generators and all gate/copy constraints; oracles: acceptance == spec predicate (C07), output == specified aggregate (C06), conservation from inputs/outputs (C08), differential invariance under every permutation and under every replacement of dummy-slot contents inside the set (C07/C09), zero-slot rule (C09). distinct = distinct vectors");
         rep.assume("child statements range over what the leaf circuit can prove (C01): 32-bit amounts, block number a function of a non-zero block hash; the wrapper-only circuit uses zero_knowledge=false (blinding adds no constraint on wrapper wires); recursion binding is C11's concern");
         for s in samples.iter().take(6) {
